@@ -612,6 +612,78 @@ class Evaluator:
             return Lin.atom((name.lower(), x, y))
         return Lin.atom((name.lower(), la, lb))
 
+    def _struct_pack(self, e: ast.Call, st: State) -> t.Optional[SBytes]:
+        """struct.pack(FMT, v1, ..) with FMT a constant or an f-string whose placeholders are repeat counts: the layout
+        it writes.  Explicit byte order only (native alignment is not modelled)."""
+        fmt_e = e.args[0]
+        toks: t.List[t.Any] = []  # characters and Lin counts
+        if isinstance(fmt_e, ast.JoinedStr):
+            for part in fmt_e.values:
+                if isinstance(part, ast.Constant) and isinstance(part.value, str):
+                    toks.extend(part.value)
+                elif isinstance(part, ast.FormattedValue) and part.format_spec is None and part.conversion == -1:
+                    try:
+                        toks.append(self.as_lin(self.eval(part.value, st), part.value))
+                    except Unsupported:
+                        return None
+                else:
+                    return None
+        else:
+            okf, fmt = self.fold(fmt_e)
+            if not okf or not isinstance(fmt, str):
+                return None
+            toks.extend(fmt)
+        toks = [x for x in toks if not (isinstance(x, str) and x.isspace())]
+        if not toks or toks[0] not in ("<", ">", "!", "="):
+            return None
+        order = "little" if toks[0] in ("<", "=") else "big"
+        widths = {"B": (1, False), "b": (1, True), "H": (2, False), "h": (2, True), "I": (4, False), "i": (4, True), "L": (4, False), "l": (4, True), "Q": (8, False), "q": (8, True)}
+        args = list(e.args[1:])
+        out = SBytes([])
+        i = 1
+        while i < len(toks):
+            count: t.Optional[Lin] = None
+            if isinstance(toks[i], Lin):
+                count = toks[i]
+                i += 1
+            else:
+                digits = ""
+                while i < len(toks) and isinstance(toks[i], str) and toks[i].isdigit():
+                    digits += toks[i]
+                    i += 1
+                if digits:
+                    count = Lin(int(digits))
+            if i >= len(toks) or not isinstance(toks[i], str):
+                return None
+            code = toks[i]
+            i += 1
+            if code == "x":
+                out = out + self._repeat_bytes(t.cast(SBytes, self.const_to_value(b"\x00")), count if count is not None else Lin(1), e)
+            elif code == "s":
+                if not args:
+                    return None
+                a = args.pop(0)
+                width = count if count is not None else Lin(1)
+                val = self.as_bytes(self.eval(a, st), a)
+                ln = val.length()
+                if ln is not None and ln == width:
+                    out = out + val
+                else:
+                    # a value of another length is NUL-padded or cut to the field width: not the value's own bytes
+                    out = out + SBytes([Seg("raw", width, ref=Ref(f"struct_s[{width!r}]({val!r})"))])
+            elif code in widths:
+                if count is not None and not count.is_const():
+                    return None
+                for _ in range(count.const if count is not None else 1):
+                    if not args:
+                        return None
+                    a = args.pop(0)
+                    w_, sg_ = widths[code]
+                    out = out + SBytes([Seg("int", Lin(w_), value=self.as_lin(self.eval(a, st), a), order=order, signed=sg_, node=e)])
+            else:
+                return None
+        return out if not args else None
+
     def _repeat_bytes(self, b: SBytes, n: Lin, node: ast.AST) -> SBytes:
         if len(b.segs) == 1 and b.segs[0].kind == "lit":
             val = b.segs[0].value
@@ -1006,6 +1078,10 @@ class Evaluator:
             if isinstance(v, SBytes) and len(v.segs) == 1 and v.segs[0].kind == "raw":
                 return Lin.atom(("from_bytes", v.segs[0].ref.path, order, signed))
             return Lin.atom(("from_bytes", repr(v), order, signed))
+        if dotted == "struct.pack" and e.args and not kw and not any(isinstance(a, ast.Starred) for a in e.args):
+            r_ = self._struct_pack(e, st)
+            if r_ is not None:
+                return r_
         if dotted == "struct.unpack" and len(e.args) == 2:
             okf, fmt = self.fold(e.args[0])
             v = self.eval(e.args[1], st)
